@@ -422,11 +422,12 @@ def layout_history(rnd, pk, ncols=3, dup_keys=False):
     nins = rnd.choice([1, 2, 3, 4])
     for i in range(nins):
         batch = []
-        for _ in range(rnd.choice([1, 2, 3, 5])):
+        # mostly small batches, now and then a large one (a row-set of several blocks with the small block sizes)
+        for _ in range(rnd.choice([1, 2, 3, 5, 5, 14, 30])):
             a = rnd.choice(keys)
             if pk and not dup_keys:
                 while any(r[0] == a for r in rows + batch):
-                    a = rnd.choice(range(0, 40))
+                    a = rnd.choice(range(0, 150))
             b = rnd.choice([None, 0, 1, 2, 3])
             c = rnd.choice([None, "", "a", "b", "ab"])
             batch.append([a if pk else rnd.choice([None] + keys), b, c])
@@ -434,7 +435,7 @@ def layout_history(rnd, pk, ncols=3, dup_keys=False):
         steps.append({"sql": "insert into t1 values " + ", ".join(
             "(" + ", ".join(G.lit(v) for v in r) + ")" for r in batch)})
         k = rnd.random()
-        if k < 0.25 and rows:
+        if k < 0.15 and rows:
             # delete by key predicate
             cut = rnd.choice(keys)
             op = rnd.choice(["<", "=", ">="])
@@ -442,6 +443,12 @@ def layout_history(rnd, pk, ncols=3, dup_keys=False):
                                             ((op == "<" and r[0] < cut) or (op == "=" and r[0] == cut) or
                                              (op == ">=" and r[0] >= cut)))]
             steps.append({"sql": f"delete from t1 where a {op} {cut}", "deleted": len(rows) - len(keep)})
+            rows = keep
+        elif k < 0.3 and rows:
+            # scattered delete: positions all over every row-set's delete vector
+            m, r0 = rnd.choice([2, 3, 4]), rnd.choice([0, 1])
+            keep = [r for r in rows if not (r[0] is not None and r[0] % m == r0)]
+            steps.append({"sql": f"delete from t1 where a % {m} = {r0}", "deleted": len(rows) - len(keep)})
             rows = keep
         elif k < 0.45:
             steps.append({"op": "compact"})
@@ -467,10 +474,10 @@ def order_query(rnd, rows):
     if rnd.random() < 0.8:
         idx = [i for i in range(len(sel)) if G.has_col(sel[i][0])]
         rnd.shuffle(idx)
-        q["ord"] = [(i, rnd.choice(["asc", "desc"])) for i in idx[:rnd.choice([1, 1, 2, 3])]]
+        q["ord"] = [(i, rnd.choice(["asc", "desc"])) for i in idx[:rnd.choice([1, 2, 2, 3])]]
     if rnd.random() < 0.7:
-        q["lim"] = rnd.choice([0, 1, 2, 5, -1])
-        q["off"] = rnd.choice([0, 0, 1, 2, 5])
+        q["lim"] = rnd.choice([0, 1, 2, 5, 9, -1])
+        q["off"] = rnd.choice([0, 0, 1, 2, 5, 13])
     return q
 
 
